@@ -432,6 +432,17 @@ def run(c):
     c.trusted += ["go/hpacket harness + in-package overlay verif_hooks.go (state injection, encrypt with given keys, raw write)",
                   "factgen constant extraction (facts.d/Packet.json)",
                   "modelled, not verified: hash/crc32, crypto/aes, crypto/cipher (CBC), net.Conn semantics (one Read = at most one chunk)"]
+    c.assumptions += [
+        "not a theorem, explored only: a changed byte in the length word, and any changed ciphertext byte under AES-CBC, is "
+        "detected with probability 1-2^-32 (every such single-byte change of short histories is tried; none was accepted)",
+        "no read timeout is used, so the reader never sends pings and every pong is unexpected (as in the model)",
+        "the AES instance of the model is not proved to satisfy the block-cipher law; its agreement with crypto/aes is sampled "
+        "(exact ciphertext comparison); the bitwise CRC instance is proved to detect single-byte changes, its agreement with "
+        "hash/crc32 is sampled",
+        "bodies above ~6 kB (quick) / 70 kB (thorough) and the 16 MB limit itself are covered by the theorems and by the "
+        "length-validation cases (`packet.wlen`), not by full-content runs",
+        "the real-handshake cases use a deterministic crypto/rand and one fixed crypto key; nonce time and pid vary from run "
+        "to run, therefore behaviour under corruption behind the real handshake is judged by the oracle, not compared with the model"]
     replay_lines = []
     if c.replay:
         for f in c.replay.get("failures", []):
@@ -451,7 +462,7 @@ def run(c):
             lines.append(ln)
 
     # ---- phase A: mostly valid histories, several chunkings / buffer sizes each
-    nscripts = 700 if c.thorough else 120
+    nscripts = 450 if c.thorough else 120
     gid = 0
     scripts = []
     for i in range(nscripts):
@@ -472,7 +483,7 @@ def run(c):
         gid += 1
         add(s, chunkings(rng, 1)[0], "-", rng.choice(BUFS), rng.choice(BUFS), gid)
     # ---- phase B: single-byte corruptions and truncations of short histories, every offset
-    ncor = 260 if c.thorough else 36
+    ncor = 150 if c.thorough else 36
     for i in range(ncor):
         s = gen_script(rng, 300, short=True, builtin=(i % 5 == 4), want_enc=(i % 2 == 0))
         if s.plain is None:
@@ -552,7 +563,7 @@ def run(c):
             c.oracle_fail(outs[0][1], "result of reading depends on the segmentation of the byte stream / buffer sizes", outs[0][1])
     # ---- phase C: malformed streams (reader only), plaintext-level malformations under AES-CBC, length validation
     lines2 = [l for l in replay_lines if l.startswith("packet.read ")]
-    for _ in range(4000 if c.thorough else 700):
+    for _ in range(3000 if c.thorough else 700):
         ln = gen_malformed(rng)
         if ln not in seen:
             seen.add(ln)
@@ -564,7 +575,7 @@ def run(c):
             continue
         evs = a.split(" ")[0][2:].split(",")
         c.count("read-final:" + evs[-1][2:])
-        claim = l.split(" ")[6]
+        claim = (l.split(" ") + ["-"])[6]
         if claim != "-" and (len(evs) - 1 != int(claim) or evs[-1] == "e:eof"):
             c.oracle_fail(l, "malformed packet: delivered %d packets (expected the %s valid ones before it), final %s" % (
                 len(evs) - 1, claim, evs[-1]), l)
@@ -620,7 +631,7 @@ def run(c):
             return [] if t == "-" else [(int(x.split(":")[0], 16), unhex(x.split(":")[1])) for x in t.split(",")]
         return int(f[2]), min(int(f[3]), 2), pks(f[4]), pks(f[5]), (None if f[7] == "-" else int(f[7][1:].split(":")[0]))
 
-    for i in range(240 if c.thorough else 48):
+    for i in range(150 if c.thorough else 48):
         enc = i % 2
         req = rng.choice([0, 1, 1, 2, 2, 3])
         proto = min(req, 2)
